@@ -43,7 +43,9 @@ Record Co (s:sys) : Prop := {
   E7 : forall k, In k (ikeys s) -> sane k;
   E8 : forall rid h, In (rid, h) (handlers s) -> h_nz h;
   E9 : (forall k cv, In (k, cv) (cache s) -> cv_nz cv) /\ (forall k cv, In (k, cv) (respq s) -> cv_nz cv);
-  E10 : forall n v, cur s n = Some v -> vtag v <> 0
+  E10 : forall n v, cur s n = Some v -> vtag v <> 0;
+  E11 : forall k, In k (ikeys s) -> In k (fetches s) \/ In k (rkeys s);      (* an in-flight key is being fetched or its response is queued *)
+  E12 : forall k cv, In (k, cv) (cache s) -> cv_ok cv = true                  (* failed results are never cached *)
 }.
 
 Lemma lookup_in {A} k : forall (m:list (key * A)) a, lookup k m = Some a -> In (k, a) m.
@@ -104,8 +106,8 @@ Qed.
 
 Lemma apply_out_co s rid o : Co s -> out_ok o -> Co (apply_out s rid o).
 Proof.
-  intros [e1 e2 e3 e4 e5 e6 e7 e8 e9 e10] Ho. destruct o as [h rq dn]. destruct Ho as [Hh Hr].
-  constructor; cbn [apply_out fetches inflight respq cache cur handlers reqq]; auto.
+  intros [e1 e2 e3 e4 e5 e6 e7 e8 e9 e10 e11 e12] Ho. destruct o as [h rq dn]. destruct Ho as [Hh Hr].
+  constructor; cbn [apply_out fetches inflight respq cache cur handlers reqq]; auto; try exact e11; try exact e12.
   - intros k Hk. unfold qkeys in Hk. cbn [reqq] in Hk. destruct rq as [[k' p]|]; [|apply e6; exact Hk].
     rewrite map_app in Hk. apply in_app_or in Hk. destruct Hk as [Hk|[<-|[]]]; [apply e6; exact Hk|exact Hr].
   - intros rid' h' Hin. apply set_handler_in in Hin. destruct Hin as [[-> _]|Hin]; [exact Hh|eapply e8; exact Hin].
@@ -149,7 +151,7 @@ Theorem step_co s s' : Co s -> step s s' -> Co s'.
 Proof.
   intros Hs Hst. destruct Hst as [s rid q Hn|s pre m rid k p post Hq|s pre k post Hf|s pre k cv post Hr|s k|s rid q a hv o l Hh|s pre k post bad Hf|s rid q a hv o l kind Hh|s n v Hv Hfresh|s n].
   - (* start *)
-    destruct Hs as [e1 e2 e3 e4 e5 e6 e7 e8 e9 e10]. constructor; cbn [fetches inflight respq cache cur handlers reqq ikeys rkeys]; auto.
+    destruct Hs as [e1 e2 e3 e4 e5 e6 e7 e8 e9 e10 e11 e12]. constructor; cbn [fetches inflight respq cache cur handlers reqq ikeys rkeys]; auto; try exact e11; try exact e12.
     + intros k Hk. unfold qkeys in Hk. cbn [reqq] in Hk. rewrite map_app in Hk. apply in_app_or in Hk. destruct Hk as [Hk|[<-|[]]]; [apply e6; exact Hk|apply hdrkey_sane].
     + intros rid' h' Hin. apply set_handler_in in Hin. destruct Hin as [[E _]|Hin]; [inversion E; exact I|eapply e8; exact Hin].
   - (* the loop takes a request *)
@@ -159,8 +161,8 @@ Proof.
     (* the state with the request removed and the cache purged *)
     assert (Hbase : forall i f, (forall x, In x (map fst i) <-> In x (ikeys s) \/ (x = k /\ f = k :: fetches s)) -> (f = fetches s \/ (f = k :: fetches s /\ ~ In k (ikeys s))) ->
               Co (upd s c1 i (pre ++ post) (respq s) f)).
-    { intros i f Hi Hf0. destruct Hs as [e1 e2 e3 e4 e5 e6 e7 e8 e9 e10].
-      constructor; unfold ikeys, rkeys, qkeys; cbn [upd fetches inflight respq cache cur handlers reqq]; auto.
+    { intros i f Hi Hf0. destruct Hs as [e1 e2 e3 e4 e5 e6 e7 e8 e9 e10 e11 e12].
+      constructor; unfold ikeys, rkeys, qkeys; cbn [upd fetches inflight respq cache cur handlers reqq]; auto; try exact e11; try exact e12.
       - destruct Hf0 as [->|[-> Hni]]; [exact e1|]. constructor; [intro Hin; apply Hni; apply e2; exact Hin|exact e1].
       - intros x Hx. apply Hi. destruct Hf0 as [->|[-> Hni]]; [left; apply e2; exact Hx|]. destruct Hx as [<-|Hx]; [right; auto|left; apply e2; exact Hx].
       - intros x Hx Hin. destruct Hf0 as [->|[-> Hni]]; [exact (e3 x Hx Hin)|]. destruct Hin as [<-|Hin]; [|exact (e3 x Hx Hin)].
@@ -168,7 +170,11 @@ Proof.
       - intros x Hx. destruct (e4 x Hx) as [H|H]; [left; apply Hi; left; exact H|right; exact H].
       - intros x Hx. apply e6. eapply qkeys_split; [exact Hq|exact Hx].
       - intros x Hx. apply Hi in Hx. destruct Hx as [Hx|[-> _]]; [apply e7; exact Hx|exact Hk].
-      - split; [exact Hc1|apply e9]. }
+      - split; [exact Hc1|apply e9].
+      - intros x Hx. apply Hi in Hx. destruct Hx as [Hx|[-> Hfk]].
+        + destruct (e11 x Hx) as [H|H]; [left|right; exact H]. destruct Hf0 as [->|[-> _]]; [exact H|right; exact H].
+        + left. rewrite Hfk. left. reflexivity.
+      - intros x cv0 Hin. apply (e12 x). unfold c1 in Hin. destruct (p =? 0); [exact Hin|eapply purge_sub; exact Hin]. }
     destruct (lookup k c1) as [cv|] eqn:El.
     + apply deliver_to_co; [|apply (Hc1 k); apply lookup_in; exact El].
       apply Hbase; [intro x; split; [intro H; left; exact H|intros [H|[_ H]]; [exact H|exfalso; clear -H; induction (fetches s) as [|y r IH]; [discriminate|inversion H; auto]]]|left; reflexivity].
@@ -181,7 +187,7 @@ Proof.
         -- intros [<-|H]; [right; auto|left; exact H].
         -- intros [H|[-> _]]; [right; exact H|left; reflexivity].
   - (* a fetch reads the bucket *)
-    destruct Hs as [e1 e2 e3 e4 e5 e6 e7 e8 e9 e10].
+    destruct Hs as [e1 e2 e3 e4 e5 e6 e7 e8 e9 e10 e11 e12].
     assert (Hkf : In k (fetches s)) by (rewrite Hf; apply in_or_app; right; left; reflexivity).
     assert (Hks : sane k) by (apply e7; apply e2; exact Hkf).
     assert (Hnd : ~ In k (pre ++ post)) by (rewrite Hf in e1; apply NoDup_remove_2 in e1; exact e1).
@@ -199,7 +205,7 @@ Proof.
       assert (Hp : prepopb (mkK (kn k) 0 (fst (root v)) (snd (root v))) = true).
       { apply prepopb_spec. unfold prepop. cbn. split; [reflexivity|]. intros [H _]. exact (root_off_nz v H). }
       rewrite Hp. reflexivity. }
-    constructor; unfold ikeys, rkeys, qkeys; cbn [upd fetches inflight respq cache cur handlers reqq]; auto.
+    constructor; unfold ikeys, rkeys, qkeys; cbn [upd fetches inflight respq cache cur handlers reqq]; auto; try exact e11; try exact e12.
     + rewrite Hf in e1. apply NoDup_remove_1 in e1. exact e1.
     + intros x Hx. apply e2. rewrite Hf. apply in_app_or in Hx. apply in_or_app. destruct Hx; [left|right; right]; assumption.
     + intros x Hx Hin. rewrite map_app in Hx. apply in_app_or in Hx. destruct Hx as [Hx|Hx].
@@ -214,12 +220,21 @@ Proof.
       destruct ((ko k =? 0) && (kl k =? 0)).
       * destruct Hin as [E|[E|[]]]; inversion E; cbn; intros _; [exact I|exact (e10 _ _ Ec)].
       * destruct Hin as [E|[]]. inversion E. cbn. intros _. exact I.
+    + assert (Hkres : In k (map fst (fetch_result s k))).
+      { unfold fetch_result. destruct (cur s (kn k)) as [v|]; [|left; reflexivity].
+        destruct (negb (ke k =? 0) && negb (ke k =? vtag v)); [left; reflexivity|]. destruct ((ko k =? 0) && (kl k =? 0)); [right; left; reflexivity|left; reflexivity]. }
+      intros x Hx. destruct (e11 x Hx) as [H|H].
+      * rewrite Hf in H. apply in_app_or in H. destruct H as [H|[<-|H]].
+        -- left. apply in_or_app. left. exact H.
+        -- right. rewrite map_app. apply in_or_app. right. exact Hkres.
+        -- left. apply in_or_app. right. exact H.
+      * right. rewrite map_app. apply in_or_app. left. exact H.
   - (* the loop takes a response *)
     assert (Hcv : cv_nz cv) by (apply (proj2 (E9 s Hs) k); rewrite Hr; apply in_or_app; right; left; reflexivity).
     apply fold_deliver_co; [exact Hcv|].
-    destruct Hs as [e1 e2 e3 e4 e5 e6 e7 e8 e9 e10].
+    destruct Hs as [e1 e2 e3 e4 e5 e6 e7 e8 e9 e10 e11 e12].
     assert (Hkr : In k (rkeys s)) by (unfold rkeys; rewrite Hr, map_app; apply in_or_app; right; left; reflexivity).
-    constructor; unfold ikeys, rkeys, qkeys; cbn [upd fetches inflight respq cache cur handlers reqq]; auto.
+    constructor; unfold ikeys, rkeys, qkeys; cbn [upd fetches inflight respq cache cur handlers reqq]; auto; try exact e11; try exact e12.
     + intros x Hx. apply remove_key_keys. split; [apply e2; exact Hx|]. intros ->. exact (e3 k Hkr Hx).
     + intros x Hx. apply e3. unfold rkeys. rewrite Hr. rewrite map_app in *. apply in_app_or in Hx. apply in_or_app. destruct Hx; [left|right; right]; assumption.
     + intros x Hx.
@@ -234,20 +249,25 @@ Proof.
     + split.
       * intros x cv0 Hin. destruct (cv_ok cv); [destruct Hin as [E|Hin]; [inversion E; subst; exact Hcv|eapply (proj1 e9); exact Hin]|eapply (proj1 e9); exact Hin].
       * intros x cv0 Hin. apply (proj2 e9 x). rewrite Hr. apply in_app_or in Hin. apply in_or_app. destruct Hin; [left|right; right]; assumption.
+    + intros x Hx. apply remove_key_keys in Hx. destruct Hx as [Hx Hne]. destruct (e11 x Hx) as [H|H]; [left; exact H|right].
+      unfold rkeys in H. rewrite Hr, map_app in H. rewrite map_app. apply in_app_or in H. apply in_or_app.
+      destruct H as [H|[H|H]]; [left; exact H|cbn in H; congruence|right; exact H].
+    + intros x cv0 Hin. destruct (cv_ok cv) eqn:Eok; [destruct Hin as [E|Hin]; [inversion E; subst; exact Eok|eapply e12; exact Hin]|eapply e12; exact Hin].
   - (* eviction *)
-    destruct Hs as [e1 e2 e3 e4 e5 e6 e7 e8 e9 e10]. constructor; unfold ikeys, rkeys, qkeys; cbn [upd fetches inflight respq cache cur handlers reqq]; auto.
-    split; [|apply e9]. intros x cv Hin. unfold remove_key in Hin. apply filter_In in Hin. eapply (proj1 e9). exact (proj1 Hin).
+    destruct Hs as [e1 e2 e3 e4 e5 e6 e7 e8 e9 e10 e11 e12]. constructor; unfold ikeys, rkeys, qkeys; cbn [upd fetches inflight respq cache cur handlers reqq]; auto; try exact e11; try exact e12.
+    + split; [|apply e9]. intros x cv Hin. unfold remove_key in Hin. apply filter_In in Hin. eapply (proj1 e9). exact (proj1 Hin).
+    + intros x cv Hin. unfold remove_key in Hin. apply filter_In in Hin. eapply e12. exact (proj1 Hin).
   - (* tile read *)
     assert (Hnz : vtag hv <> 0) by (apply (E8 s Hs rid (HWaitTile q a hv o l)); apply get_handler_in; exact Hh).
     destruct (cur s (t_name q)) as [v|]; [|apply apply_out_co; [exact Hs|cbn; tauto]].
     destruct (vtag v =? vtag hv); apply apply_out_co; try exact Hs; [cbn; tauto|apply retry_ok].
   - (* a fetch fails *)
-    destruct Hs as [e1 e2 e3 e4 e5 e6 e7 e8 e9 e10].
+    destruct Hs as [e1 e2 e3 e4 e5 e6 e7 e8 e9 e10 e11 e12].
     assert (Hkf : In k (fetches s)) by (rewrite Hf; apply in_or_app; right; left; reflexivity).
     assert (Hks : sane k) by (apply e7; apply e2; exact Hkf).
     assert (Hnd : ~ In k (pre ++ post)) by (rewrite Hf in e1; apply NoDup_remove_2 in e1; exact e1).
     assert (Hnp : prepopb k = false) by (destruct (prepopb k) eqn:E; [apply prepopb_spec in E; contradiction|reflexivity]).
-    constructor; unfold ikeys, rkeys, qkeys; cbn [upd fetches inflight respq cache cur handlers reqq]; auto.
+    constructor; unfold ikeys, rkeys, qkeys; cbn [upd fetches inflight respq cache cur handlers reqq]; auto; try exact e11; try exact e12.
     + rewrite Hf in e1. apply NoDup_remove_1 in e1. exact e1.
     + intros x Hx. apply e2. rewrite Hf. apply in_app_or in Hx. apply in_or_app. destruct Hx; [left|right; right]; assumption.
     + intros x Hx Hin. rewrite map_app in Hx. apply in_app_or in Hx. destruct Hx as [Hx|[<-|[]]]; [|exact (Hnd Hin)].
@@ -255,13 +275,19 @@ Proof.
     + intros x Hx. rewrite map_app in Hx. apply in_app_or in Hx. destruct Hx as [Hx|[<-|[]]]; [apply e4; exact Hx|left; apply e2; exact Hkf].
     + rewrite map_app, filter_np_app. cbn [map fst filter]. rewrite Hnp. cbn [negb]. apply NoDup_app_singleton; [exact e5|]. intro Hin. apply filter_In in Hin. exact (e3 k (proj1 Hin) Hkf).
     + split; [apply e9|]. intros x cv Hin. apply in_app_or in Hin. destruct Hin as [Hin|[E|[]]]; [eapply (proj2 e9); exact Hin|]. inversion E. unfold cv_nz, failv. cbn. discriminate.
+    + intros x Hx. destruct (e11 x Hx) as [H|H].
+      * rewrite Hf in H. apply in_app_or in H. destruct H as [H|[<-|H]].
+        -- left. apply in_or_app. left. exact H.
+        -- right. rewrite map_app. apply in_or_app. right. left. reflexivity.
+        -- left. apply in_or_app. right. exact H.
+      * right. rewrite map_app. apply in_or_app. left. exact H.
   - (* a tile read fails *)
     apply apply_out_co; [exact Hs|]. destruct kind; [apply retry_ok|cbn; tauto|cbn; tauto].
   - (* replacement *)
-    destruct Hs as [e1 e2 e3 e4 e5 e6 e7 e8 e9 e10]. constructor; unfold ikeys, rkeys, qkeys; cbn [fetches inflight respq cache cur handlers reqq]; auto.
+    destruct Hs as [e1 e2 e3 e4 e5 e6 e7 e8 e9 e10 e11 e12]. constructor; unfold ikeys, rkeys, qkeys; cbn [fetches inflight respq cache cur handlers reqq]; auto; try exact e11; try exact e12.
     intros m v' H. destruct (m =? n); [inversion H; subst; exact Hv|eapply e10; exact H].
   - (* deletion *)
-    destruct Hs as [e1 e2 e3 e4 e5 e6 e7 e8 e9 e10]. constructor; unfold ikeys, rkeys, qkeys; cbn [fetches inflight respq cache cur handlers reqq]; auto.
+    destruct Hs as [e1 e2 e3 e4 e5 e6 e7 e8 e9 e10 e11 e12]. constructor; unfold ikeys, rkeys, qkeys; cbn [fetches inflight respq cache cur handlers reqq]; auto; try exact e11; try exact e12.
     intros m v' H. destruct (m =? n); [discriminate|eapply e10; exact H].
 Qed.
 
@@ -269,5 +295,5 @@ Theorem reach_co s : reach s -> Co s.
 Proof. induction 1 as [|s s' R IH St]; [apply Co_init|eapply step_co; eassumption]. Qed.
 (* at most one outstanding fetch per key; a key whose response is queued is not being fetched again *)
 Theorem coalesced s : reach s -> NoDup (fetches s) /\ (forall k, In k (fetches s) -> In k (ikeys s)) /\ (forall k, In k (rkeys s) -> ~ In k (fetches s)).
-Proof. intro R. destruct (reach_co s R) as [e1 e2 e3 _ _ _ _ _ _ _]. auto. Qed.
+Proof. intro R. destruct (reach_co s R) as [e1 e2 e3 _ _ _ _ _ _ _ _ _]. auto. Qed.
 End Co.
